@@ -16,8 +16,9 @@ CFGS = [dict(max_msgs=3, flush=True, relay_pool=1), dict(max_msgs=3, flush=False
 
 
 def run(ctx):
-    for backend in ('dict', 'disk', 'cloud'):
+    for backend in ('dict', 'disk', 'cloud', 'redis'):
         qharness.scripted_rounds(ctx, ('c01',), backend)
+        qharness.scripted_restart(ctx, ('c01',), backend)
     ctx.extra['rule'] = ('random schedules over {enqueue, release any pending storage/relay/load/wait gate with a random result '
                          '(relay: ok/temp/perm/other/mapping/sequence, a stream with results outside the contract; in the relay=pipe/pipe1 configurations the relay is the REAL PipeRelay (per-recipient or not) over scripted processes, exit status incl. death by signal + output being the ground truth; backoff: None/0/5/10), '
                          'advance the virtual clock, flush}; each run is then drained and the final disposition of every accepted recipient '
